@@ -39,9 +39,9 @@ def run(tier, replay):
     n_corpus_jobs = len(jobs)
     if not replay:
         if tier == "quick":
-            shards, n = 16, 11
+            shards, n = 16, 16
         else:
-            shards, n = 16, 110
+            shards, n = 16, 160
         for sh in range(shards):
             jobs.append(("gen%d.jsonl" % sh, ["--n", str(n), "--shard", str(sh),
                                               "--thorough", "1" if tier != "quick" else "0"]))
